@@ -47,7 +47,12 @@ var c02Templates = []string{
 	`x = (getline line < V)`, `x = (getline < V)`, `print "p" > V`, `print "p" >> V`, `printf "p" > V`,
 	`print V, V`, `print V V`, `for (i = 0; i < V; i++) break`, `while (V) break`, `do { n++ } while (V && n < 3)`, `if (V) x = 1; else x = 2`,
 	`CONVFMT = V; x = 0.1 ""; y = arr[0.1]`, `OFMT = V; print 0.1, 17`, `SUBSEP = V; arr[1, 2] = 3; for (k in arr) x = k`, `OFS = V; $2 = "q"; print; print 1, 2`, `ORS = V; print "r"`,
-	`FS = V; $0 = "a b,c"; x = $1 NF`, `RS = V; x = (getline y)`, `RSTART = V; RLENGTH = V; x = substr("abc", RSTART, RLENGTH)`, `FILENAME = V; x = FILENAME`, `RT = V`,
+	`FS = V; $0 = "a b,c"; x = $1 NF`, `RS = V; x = (getline y)`,
+	// a reader that is already splitting with a regex RS (or paragraph mode) when RS / FS change
+	`RS = "[ ,b]+"; x = (getline y); RS = V; x = x (getline z) (getline w); print x, y, z, w`, `RS = ""; x = (getline y); RS = V; x = x (getline z); print y z`,
+	`RS = "(1|h)+"; getline; RS = V; getline; getline; print NF, $0`,
+	`RS = "[1,]+"; x = (getline y < "f.csv"); RS = V; x = x (getline z < "f.csv") (getline w < "f.csv"); close("f.csv"); RS = "\n"; print x, y, z, w`,
+	`RS = ""; x = (getline y < "f.csv"); RS = V; x = x (getline z < "f.csv"); close("f.csv"); RS = "\n"`, `FS = "[ ,]+"; $0 = "a b,c"; x = $2; FS = V; $0 = "d e,f"; x = x $2 NF`, `RSTART = V; RLENGTH = V; x = substr("abc", RSTART, RLENGTH)`, `FILENAME = V; x = FILENAME`, `RT = V`,
 	`$0 = huge; x = NF length($1) length()`, `print huge; printf "%s|%5s|%.3s|%c\n", huge, huge, huge, huge`, `x = tolower(huge) toupper(huge); y = substr(huge, V, V) index(huge, "y") index(huge, V)`, `arr[huge] = huge; x = (huge in arr); $2 = huge; $(V) = huge`,
 	`n = split(huge, arr); n = split(huge, arr, "y"); n = split(huge, arr, V)`, `x = huge ""; x = huge + 0; x = (huge < V); x = -huge`, `print huge > "/dev/stdout"; print huge | "cat"; close("cat")`, `s = huge; n = gsub(/y/, V, s); n = sub(/ +/, "&&", s)`,
 	`INPUTMODE = V`, `OUTPUTMODE = V; print 1, "a,b"`, `x = @V`, `exit V`, `return_(V)`, `x = f2(V, V)`, `x = deep(V)`,
@@ -491,6 +496,7 @@ func c02Operands(c *core.Ctx) {
 
 func c02Run(c *core.Ctx) {
 	c02Dir = c01Dir(c)
+	os.WriteFile(filepath.Join(c02Dir, "f.csv"), []byte("f1,f2,\"f,3\"\ng1\n"), 0o644)
 	c02Operands(c)
 	c02Hostile(c)
 	c02Specials(c)
